@@ -14,7 +14,7 @@ well.
 
 Rank clause: the model prints `rankFamily` (theorem `generators_independent`: independent for every
 size; `generators_count_partial`: n - k members for every size that is neither deficient nor in the
-gap Lz = 4, Lx >= 4, Ly >= 5 / Lx = 3, Ly = 5, Lz >= 7); the stream `rank-family` evaluates it on the
+gap Lz = 4, Lx >= 4, Ly >= 5); the stream `rank-family` evaluates it on the
 implementation's stabilizer_matrix on every run: distinct stabilizer locations, n - k of them, GF(2)
 rank n - k on the counted sizes; `independent` (rank = number of members) on the deficient and gap
 sizes."""
@@ -46,7 +46,7 @@ def deficient(L):
 def gap(L):
     """the predicate `Gap`: the family is independent there, its count is not proved"""
     Lx, Ly, Lz = L
-    return (Lz == 4 and Lx >= 4 and Ly >= 5) or (Lx == 3 and Ly == 5 and Lz >= 7)
+    return Lz == 4 and Lx >= 4 and Ly >= 5
 
 
 RANK_SIZES = [(2, 2, 3), (2, 3, 4), (3, 3, 3), (3, 4, 4), (4, 4, 4), (3, 5, 4), (3, 5, 5), (4, 4, 5), (4, 5, 5),
